@@ -825,7 +825,8 @@ class SC:
                       arith('+', arith('*', ar, bi), arith('*', ai, br))).norm()
         if op == '/':
             if isinstance(br, (SV, SDyad)) or isinstance(bi, (SV, SDyad)):
-                raise NeedConcrete('symbolic complex divisor')
+                # a symbolic divisor is concretised by the path explorer (forks once per feasible value)
+                br, bi = _concretise(br), _concretise(bi)
             if bi == 0:
                 return SC(arith('/', ar, br), arith('/', ai, br)).norm()
             if br == 0:   # a / (i*bi) = -i a / bi
@@ -880,6 +881,15 @@ class SC:
     @property
     def imag(self): return self.im
     def conjugate(self): return SC(self.re, arith('-', 0, self.im))
+
+
+def _concretise(x):
+    if isinstance(x, SV):
+        return int(x)
+    if isinstance(x, SDyad):
+        f = fractions.Fraction(int(x.m) if isinstance(x.m, SV) else x.m, 1 << x.k)
+        return int(f) if f.denominator == 1 else float(f)
+    return x
 
 
 def parts(x):
